@@ -97,6 +97,10 @@ def shards(tier, seed):
     return out
 
 
+class GiveUp(Exception):
+    """The stack under test refuses to go on (already reported as a violation)."""
+
+
 def run_shard(desc) -> Acc:
     import bellows.ezsp as e
     from bellows.exception import InvalidCommandError
@@ -163,6 +167,14 @@ def run_shard(desc) -> Acc:
                 # the previous (orphaned) command still holds the send slot: wait it out
                 await asyncio.sleep(11)
             if hold.last is None:
+                tk = pending["task"]
+                if tk.done() and not tk.cancelled() and tk.exception() is not None:
+                    # a command issued after malformed frames was refused outright: that is the property's
+                    # last clause failing, not a harness problem
+                    acc.violation("C08/afterwards/fresh-command-failed",
+                                  f"after the malformed frames a fresh {kind} was not even sent: {tk.exception()!r}",
+                                  {"version": V, "seed": desc["seed"], "part": desc["part"], "op": "ensure_pending"})
+                    raise GiveUp
                 raise RuntimeError("pending command was never sent")
             pending["seq"] = hold.last[0]
             pending["name"] = kind
@@ -345,7 +357,7 @@ def run_shard(desc) -> Acc:
 
     try:
         vloop.run(main)
-    except ncpsim.BringUpFailed:
+    except (ncpsim.BringUpFailed, GiveUp):
         pass
     return acc
 
